@@ -4,6 +4,8 @@
 tier=${1:-quick}; jobs=${2:-4}
 cd /verif
 ls seeded | grep -v '^R-' | while read sid; do
+  # (a change recorded as NOT caught - judged outside the statement, see its meta.json and DESIGN 8.5 - is listed, not run)
+  if /venv/bin/python -c "import json,sys;sys.exit(0 if json.load(open('seeded/$sid/meta.json')).get('not_caught') else 1)"; then echo "RESULT $sid: recorded as not caught (see meta.json)" >&2; continue; fi
   props=$(/venv/bin/python -c "import json;m=json.load(open('seeded/$sid/meta.json'));print(' '.join(m.get('caught_by',[m['property']])))")
   # (a seed whose meta.json says "tier": "thorough" needs sizes that only the thorough tier drives)
   t=$(/venv/bin/python -c "import json;m=json.load(open('seeded/$sid/meta.json'));print(m.get('tier','$tier'))")
